@@ -10,6 +10,7 @@ package main
 //  (C) temp files: deterministic scenarios; left-over files vs the ledger model (1406); spec: nothing left
 //  (D) robustness: random input / options / sizes / keys / mouse / actions / resizes / children; no panic text,
 //      GET keeps answering, exit leaves everything clean
+//  (F) the --tmux popup proxy under a private tmux server: see c14tmux.go
 import (
 	"bytes"
 	"encoding/json"
@@ -48,6 +49,7 @@ type c14Case struct {
 	NoListen bool    `json:"nolisten,omitempty"` // keys only (no --listen): for --with-shell scenarios
 	Shape    string  `json:"shape,omitempty"`    // kids: shape of the child command (plain pipeline list subshell ...)
 	Child    string  `json:"child,omitempty"`    // kids: which child / which trigger
+	Tmux     *c14Tmux `json:"tmux,omitempty"`    // tmux: the --tmux popup proxy stream (c14tmux.go)
 }
 
 type c14Step struct {
@@ -518,8 +520,15 @@ func c14Life(c *Ctx, cs c14Case, id string) {
 			r.s.PostSync("execute(true)")
 			ops = append(ops, L(I(3), B(true), B(false), L()))
 		case "ctrlz":
+			// typed keys are not ordered with POSTs: wait (eventually, 10 s) until the suspension shows on the terminal
+			// (Pause switches bracketed paste off) before going on; a fixed sleep is not enough on a loaded machine
+			off := []byte("\x1b[?2004l")
+			n0 := bytes.Count(r.s.Screen(), off)
 			c14SendKeys(r.s, r.slave, []byte{0x1a})
 			time.Sleep(30 * time.Millisecond)
+			for dl := time.Now().Add(10 * time.Second); time.Now().Before(dl) && !r.s.Exited() && bytes.Count(r.s.Screen(), off) <= n0; {
+				time.Sleep(2 * time.Millisecond)
+			}
 			r.s.Sync()
 			ops = append(ops, L(I(3), B(cs.Fullscreen), B(true), L()))
 		case "hide":
@@ -1123,6 +1132,8 @@ func c14Run1(c *Ctx, cs c14Case, id string) {
 		c14Kids(c, cs, id)
 	case "robust":
 		c14Robust(c, cs, id)
+	case "tmux":
+		c14TmuxSession(c, cs, id)
 	}
 }
 
@@ -1146,7 +1157,7 @@ func c14Pool(c *Ctx, cases []c14Case, par int) {
 }
 
 func runC14(c *Ctx) {
-	c.Rep.Rule = "constrain: random (count,height,scroll-off,cy,offset), non-trivial = more items than rows; life cycle: 15 option sets x 10 exit paths with random execute/ctrl-z/hide-show/resize/typing in between, non-trivial = at least one step; temp files: scenario classes x random placeholders; robustness: random input/options/sizes/keys/actions/resizes, non-trivial = non-empty input; distinct by JSON of the case"
+	c.Rep.Rule = "constrain: random (count,height,scroll-off,cy,offset), non-trivial = more items than rows; life cycle: 15 option sets x 10 exit paths with random execute/ctrl-z/hide-show/resize/typing in between, non-trivial = at least one step; temp files: scenario classes x random placeholders; robustness: random input/options/sizes/keys/actions/resizes, non-trivial = non-empty input; tmux proxy: 14 exit paths x random --tmux layouts, options, stdin kinds and triggers under a private tmux server, every one non-trivial; distinct by JSON of the case"
 	if c.Replay != "" {
 		var cs c14Case
 		b, err := os.ReadFile(c.Replay)
@@ -1208,6 +1219,14 @@ func runC14(c *Ctx) {
 	for i := 0; i < nr; i++ {
 		cases = append(cases, c14GenRobust(c.Rng))
 	}
+	// (F) the --tmux popup proxy under a private tmux server; generated last (the other streams keep their cases per
+	// seed) and run first (their fixed waits overlap with the rest)
+	ntm := c.N(28, 420)
+	tmuxCases := []c14Case{}
+	for i := 0; i < ntm; i++ {
+		tmuxCases = append(tmuxCases, c14GenTmux(c.Rng, i))
+	}
+	cases = append(tmuxCases, cases...)
 	if only := os.Getenv("C14_ONLY"); only != "" { // debugging aid: restrict the session cases to one kind
 		kept := []c14Case{}
 		for _, cs := range cases {
